@@ -127,6 +127,13 @@ def gen_cases(tier, seed):
                         if gam == "primal" and g != "l2sq":
                             continue
                         cases.append(dict(kind="pdhg", A=A, g=g, start=start, steps=steps, gamma=gam, tier=tier))
+    # the dual prox given through the library's conjugation wrapper (prox of f* as Conj(prox of f)) instead of in closed
+    # form: the same operator, another code path, and the one the LinearLeastSquares / TV apps use
+    for A in ("diag", "real32", "cplx32"):
+        for g in (None, "l1", "l2sq"):
+            for start in ("generic", "saddle"):
+                for steps in ("bal05", "unbal", "diag"):
+                    cases.append(dict(kind="pdhg", A=A, g=g, start=start, steps=steps, gamma="none", tier=tier, fc="conj"))
     return cases
 
 
@@ -274,7 +281,7 @@ def run_pdhg(case, seed):
     K = 150 if case["tier"] == "quick" else 400
     KC = 4000 if case["tier"] == "quick" else 20000
     viol = []
-    when = "steps=%s, gamma=%s, g=%s" % (case["steps"], case["gamma"], kind)
+    when = "steps=%s, gamma=%s, g=%s%s" % (case["steps"], case["gamma"], kind, ", dual prox via Conj" if case.get("fc") == "conj" else "")
 
     def V(oracle, detail):
         viol.append(dict(oracle=oracle, key=dict(site="alg.PrimalDualHybridGradient", when=when), detail=detail + " | " + str(case)))
@@ -312,7 +319,7 @@ def run_pdhg(case, seed):
     tau_arg = np.array(tau, dtype=float) if np.ndim(tau) else float(tau)
     sig_arg = np.array(sigma, dtype=float) if np.ndim(sigma) else float(sigma)
     alg = sp.alg.PrimalDualHybridGradient(
-        sp.prox.L2Reg([m], 1, y=-yd), make_prox(kind, par, [n]),
+        (sp.prox.Conj(sp.prox.L2Reg([m], 1, y=yd)) if case.get("fc") == "conj" else sp.prox.L2Reg([m], 1, y=-yd)), make_prox(kind, par, [n]),
         lambda v: Ad @ v, lambda v: Ad.conj().T @ v, x, u, tau_arg, sig_arg,
         gamma_primal=gp, gamma_dual=gd, max_iter=KC, tol=0)
     tv = np.broadcast_to(np.asarray(tau, float), (n,))
